@@ -159,6 +159,64 @@ func marshalErr(what string, v interface{}) string {
 	return ""
 }
 
+// maxModelEntries: a model of the identifier or full pass that holds more entries than this when it is written
+// out is reported as not serialisable instead of being handed to encoding/json. The listeners keep nested types
+// in InnerStructures lists that share memory, so a model can be small in memory and astronomically large as text
+// (finding full-pass-model-doubles-with-each-nested-class: 2^n type entries for n member classes of one class);
+// json.Marshal of such a model ends the process with "fatal error: out of memory" - the crash the property
+// excludes, but one that can be neither replayed quickly nor shrunk. An entry is a type, function, call, field,
+// parameter, annotation or import (each at least some 100 bytes of JSON); an honest model of a generated unit
+// (a few thousand tokens, lists of at most 130) stays below 100 000 entries.
+const maxModelEntries = 2000000
+
+// modelEntries counts the entries of a model the way encoding/json writes them - every entry of an
+// InnerStructures list (of a type, of a function, of an inner function) once more in full - and stops
+// counting above limit.
+func modelEntries(list []core_domain.CodeDataStruct, limit int) int {
+	n := 0
+	var inFunctions func(fs []core_domain.CodeFunction)
+	var inTypes func(ts []core_domain.CodeDataStruct)
+	inCalls := func(cs []core_domain.CodeCall) {
+		n += len(cs)
+		for i := range cs {
+			n += len(cs[i].Parameters)
+		}
+	}
+	inFunctions = func(fs []core_domain.CodeFunction) {
+		for i := range fs {
+			if n++; n > limit {
+				return
+			}
+			f := &fs[i]
+			n += len(f.Parameters) + len(f.MultipleReturns) + len(f.Annotations) + len(f.Modifiers)
+			inCalls(f.FunctionCalls)
+			inTypes(f.InnerStructures)
+			inFunctions(f.InnerFunctions)
+		}
+	}
+	inTypes = func(ts []core_domain.CodeDataStruct) {
+		for i := range ts {
+			if n++; n > limit {
+				return
+			}
+			t := &ts[i]
+			n += len(t.Fields) + len(t.Implements) + len(t.MultipleExtend) + len(t.Annotations) + len(t.InOutProperties) + len(t.Imports)
+			inCalls(t.FunctionCalls)
+			inTypes(t.InnerStructures)
+			inFunctions(t.Functions)
+		}
+	}
+	inTypes(list)
+	return n
+}
+
+func modelTooLarge(what string, list []core_domain.CodeDataStruct) string {
+	if modelEntries(list, maxModelEntries) > maxModelEntries {
+		return fmt.Sprintf("%s: result cannot be serialised: written out, the model holds more than %d entries (types, functions, calls, fields ...: InnerStructures lists repeated inside each other); encoding/json was not tried, it would end the process with `fatal error: out of memory`", what, maxModelEntries)
+	}
+	return ""
+}
+
 // runPasses runs the six passes on dir, each from fresh package state, each guarded.
 // It returns the results and the first problem (panic or unserialisable result).
 func runPasses(dir string) (results, string) {
@@ -171,6 +229,9 @@ func runPasses(dir string) (results, string) {
 	}); p != "" {
 		return r, "identifier pass panicked: " + p
 	}
+	if m := modelTooLarge("identifier pass", r.ident); m != "" {
+		return r, m
+	}
 	if m := marshalErr("identifier pass", r.ident); m != "" {
 		return r, m
 	}
@@ -182,6 +243,9 @@ func runPasses(dir string) (results, string) {
 		r.full = app.AnalysisPath(dir, ident)
 	}); p != "" {
 		return r, "full pass panicked: " + p
+	}
+	if m := modelTooLarge("full pass", r.full); m != "" {
+		return r, m
 	}
 	if m := marshalErr("full pass", r.full); m != "" {
 		return r, m
